@@ -27,6 +27,20 @@ func GenIterScript(r *Rng, hist map[string]int) []string {
 	}
 	add("dir db")
 	add("open %s", c)
+	add("shards")
+	for i := 0; i < 3; i++ {
+		// requested shard counts: around the powers of two, beyond the maximum, zero, negative, huge
+		e := r.Intn(12)
+		n := (1 << uint(e)) + r.Intn(5) - 2
+		switch r.Intn(8) {
+		case 0:
+			n = -n
+		case 1:
+			n = r.Pick(0, -1, 1<<31, 1<<40, -(1 << 40), 1<<62)
+		}
+		add("shardcount %d", n)
+		hist["shardcount_probes"]++
+	}
 	live := map[string]bool{}
 	// three-letter alphabets: plain letters, or the extreme byte values (prefixes ending in 0xff have no
 	// successor of the same length; 0x00 is the smallest extension of a key)
